@@ -8,6 +8,8 @@ import OnlVerif.Tcp.Replay
 import OnlVerif.Net.MultiQueueReplay
 import OnlVerif.Util.RtReplay
 import OnlVerif.Net.PortOnKReplay
+import OnlVerif.Util.TimerOnKReplay
+import OnlVerif.Net.WireOnKReplay
 /-! Line-protocol driver: `driver <mode>` reads cases on stdin and prints the model's observations. -/
 
 def main (args : List String) : IO UInt32 := do
@@ -24,4 +26,6 @@ def main (args : List String) : IO UInt32 := do
   | ["tcpsender"] => tcpLoop stdin "tcpsender"; return 0
   | ["rt"] => rtLoop stdin {}; return 0
   | ["portk"] => portkLoop stdin; return 0
+  | ["timerk"] => timerkLoop stdin; return 0
+  | ["wirek"] => wirekLoop stdin; return 0
   | _ => IO.eprintln "usage: driver <kernel|fifo|gensink|timer|rt|…>"; return 2
